@@ -33,6 +33,9 @@ VM_COMPILED = dict(X86, main="src/vm_compiled.cpp", keep=["CompiledVm::ctor", "C
 RX_CREATE_VM = {"main": "src/randomx.cpp", "keep": ["randomx_create_vm"],
                 "must_fire": {"new of template-instantiation alias -> rxv_new_<Class>(template args, ctor args)": 24,
                               "alias of template instantiation recorded": 24}}
+RX_CREATE_VM_EXC = dict(RX_CREATE_VM, exceptions={"may_throw": ["rxv_new_InterpretedLightVm", "rxv_new_InterpretedVm", "rxv_new_CompiledLightVm", "rxv_new_CompiledVm",
+                                                                  "setCache", "setDataset", "allocate"]},
+                        must_fire=dict(RX_CREATE_VM["must_fire"], **{"try/catch -> exception flow model": 1, "exception flow: exits from try block after may-throw calls": 27}))
 CREATE_VM_OB = {
     "name": "create_vm_dispatch",
     "files": [{"cxx": RX_CREATE_VM, "out": "rx.c", "header": True}, "@suites/common/harness_create_vm.c"],
@@ -55,6 +58,12 @@ DATASET_ITEM = {"main": "src/dataset.cpp", "keep": ["initDataset", "initDatasetI
 SOFT_AES = {"main": "src/soft_aes.cpp", "keep": ["soft_aesenc", "soft_aesdec", "rx_*"]}
 
 AES_HASH = {"main": "src/aes_hash.cpp", "keep": ["fillAes1Rx4", "fillAes4Rx4", "hashAes1Rx4", "hashAndFillAes1Rx4", "aesenc", "aesdec", "rx_*"]}
+# progress obligations (every size): the 16-byte accesses to the variable-size buffer - textually, the loads / stores through the
+# running pointer - become accessor stand-ins with contracts (in extent, counted); all other loads / stores stay the real helpers
+AES_HASH_PROGRESS = dict(AES_HASH, pre_rewrites=[
+    {"name": "buffer load through the running pointer -> accessor stand-in", "pattern": r"rx_load_vec_i128\(\(rx_vec_i128\*\)(scratchpadPtr|inptr) \+ (\d)\)", "repl": r"rxv_buf_load(\1, \2)"},
+    {"name": "buffer store through the running pointer -> accessor stand-in", "pattern": r"rx_store_vec_i128\(\(rx_vec_i128\*\)(scratchpadPtr|outptr) \+ (\d), ", "repl": r"rxv_buf_store(\1, \2, "}],
+    must_fire={"recipe rewrite: buffer load through the running pointer -> accessor stand-in": 8, "recipe rewrite: buffer store through the running pointer -> accessor stand-in": 12})
 
 RX_DRIVER = dict(X86, main="src/randomx.cpp", keep=["randomx_calculate_hash", "randomx_calculate_hash_first", "randomx_calculate_hash_next",
                                                     "randomx_calculate_hash_last", "randomx_vm::getRegisterFile"])
